@@ -13,15 +13,91 @@ def _skipped(ln, v=None):
     return (not o) or o[0].startswith("skip:") or o[0] == "unsettled" or (v is not None and v.startswith("ok skipped"))
 
 
+def _cluster_key(ln):
+    f = ln.split("|")[0].split()
+    return " ".join(f[1:5]) if f and f[0] == "K" and len(f) == 8 else None
+
+
+def _cluster_class(key):
+    """configuration class of a cluster for the per-class bound on not-run scenarios"""
+    f = key.split()
+    nodes = f[0].split(",")
+    cfg = f[3].split("/")
+    return "%s/nosap=%s/stopped=%d/down=%d/filtered=%d" % (
+        cfg[0][0], cfg[1], any(x.split(".")[4] == "a" for x in nodes),
+        any(x.split(".")[4] == "b" for x in nodes), any(x.split(".")[5] == "1" for x in nodes))
+
+
+def _migration(hist):
+    """the history re-announces a tablet (same range, same hosts) with a changed shard"""
+    seen = {}
+    for o in hist.split(";"):
+        if not o.startswith("L"):
+            continue
+        a, b, reps = o[1:].split(":")
+        hosts = tuple(sorted(r.split("=")[0] for r in reps.split("+"))) if reps != "_" else ()
+        k = (a, b, hosts)
+        if k in seen and seen[k] != reps:
+            return True
+        seen[k] = reps
+    return False
+
+
+def _kinds(lines, verdicts):
+    c = {}
+    for ln, v in zip(lines, verdicts):
+        m = re.search(r"kind=([\w-]+)", v or "")
+        if m:
+            c[m.group(1)] = c.get(m.group(1), 0) + 1
+            if " own=1 part=1" in v:
+                c["owner-shard-in-partial-pool"] = c.get("owner-shard-in-partial-pool", 0) + 1
+            if m.group(1) == "tablet-replica" and _migration(ln.split("|")[0].split()[6]):
+                c["tablet-replica-after-shard-migration"] = c.get("tablet-replica-after-shard-migration", 0) + 1
+            f = ln.split("|")[0].split()
+            if m.group(1).endswith("-replica") and len(f) == 8 and (f[5].split("/")[2] == "1" or f[5].split("/")[3] == "1"):
+                c["lwt-replica"] = c.get("lwt-replica", 0) + 1
+    return c
+
+
+# fractions of the judged lines that a full-size run must reach (a run that does not exercise what the
+# evidence claims is reported as broken correspondence)
+_FLOORS = {"ring-replica": 0.15, "tablet-replica": 0.04, "pool-probe": 0.04, "ring-no-usable-replica": 0.03,
+           "tablet-unknown-token": 0.03, "tablet-no-usable-replica": 0.005, "not-token-aware": 0.02,
+           "lwt-replica": 0.02, "owner-shard-in-partial-pool": 0.002, "tablet-replica-after-shard-migration": 0.002}
+
+
 def _post(lines, verdicts):
-    """Requests whose scenario could not be set up (mock cluster / session did not start, pools did not
-    settle, tablet feedback not observed) observe nothing.  A few are tolerated and counted; more than
-    max(5, 3 %) means the tie was not exercised and the check must fail."""
+    """Environment trouble (mock cluster / session did not start, pools not established, tablet feedback not
+    observed, harness timeout, connections changing under a request) is a counted NOT-RUN, never a violation:
+    tolerated up to max(5, 2 %) of the lines, and per configuration class (pool kind x shard-aware port x
+    stopped / down / filtered nodes) at most max(1, 25 %) of the class's clusters may contain a not-run
+    (classes of >= 8 clusters), so that a defect which keeps one kind of scenario from settling cannot hide."""
+    out = []
     sk = [ln for ln, v in zip(lines, verdicts) if _skipped(ln, v)]
-    if len(sk) > max(5, len(lines) * 3 // 100):
-        return [("diff", sk[0], "diff e2e tie not exercised: %d of %d requests skipped (%s)"
-                 % (len(sk), len(lines), " ".join(_impl(sk[0])[:1])))]
-    return []
+    if len(sk) > max(5, len(lines) * 2 // 100):
+        out.append(("diff", sk[0], "diff e2e tie not exercised: %d of %d requests not run (%s)"
+                    % (len(sk), len(lines), " ".join(_impl(sk[0])[:1]))))
+    per = {}
+    for ln, v in zip(lines, verdicts):
+        k = _cluster_key(ln)
+        if k is None:
+            continue
+        cl = per.setdefault(_cluster_class(k), {})
+        cl[k] = cl.get(k, False) or _skipped(ln, v)
+    for cls, clusters in sorted(per.items()):
+        bad = [k for k, s in clusters.items() if s]
+        if len(clusters) >= 8 and len(bad) > max(1, len(clusters) // 4):
+            ex = next(ln for ln, v in zip(lines, verdicts) if _cluster_key(ln) == bad[0] and _skipped(ln, v))
+            out.append(("diff", ex, "diff e2e tie not exercised for configuration class %s: %d of %d clusters had requests not run"
+                        % (cls, len(bad), len(clusters))))
+    judged = len(lines) - len(sk)
+    if len(lines) >= 5000:                      # a full-size run (not a replay)
+        kinds = _kinds(lines, verdicts)
+        for k, frac in _FLOORS.items():
+            if kinds.get(k, 0) < frac * judged:
+                out.append(("diff", lines[0], "diff coverage floor: only %d judged requests of kind %s (floor %d of %d)"
+                            % (kinds.get(k, 0), k, int(frac * judged), judged)))
+    return out
 
 
 def _cov(lines, verdicts):
@@ -39,9 +115,7 @@ def _cov(lines, verdicts):
         o = _impl(ln)
         if len(f) != 8:
             continue
-        m = re.search(r"kind=([\w-]+)", v or "")
-        if m:
-            c["exercised"][m.group(1)] = c["exercised"].get(m.group(1), 0) + 1
+        pass
         key = " ".join(f[1:5])
         nodes = f[1].split(",")
         if key not in seen:
@@ -69,6 +143,8 @@ def _cov(lines, verdicts):
         c["policy_pref"][cfg[2][0]] = c["policy_pref"].get(cfg[2][0], 0) + 1
         npk = sum(1 for m in st[4].split(",") if not m.endswith("-"))
         c["key_columns"][str(npk)] = c["key_columns"].get(str(npk), 0) + 1
+    c["exercised"] = _kinds(lines, verdicts)
+    c["pool_probes"] = sum(1 for ln in lines if ln.startswith("P "))
     return {"e2e": c}
 
 
@@ -78,6 +154,7 @@ SPEC = {
     "bin": "c12",
     # --n = number of mock clusters; quick: 100 requests per cluster, thorough: 240
     "sizes": {"quick": 500, "thorough": 4000},
+    "min_cases": {"quick": 40000, "thorough": 700000},
     "search_n": 600,
     "search_rounds": 1,
     "runner_timeout": 3000,
@@ -92,20 +169,26 @@ SPEC = {
              "tablets delivered through tablets-routing-v1 payloads of real responses (ring partitions, tablets aimed at the keys' "
              "tokens, overlapping ones, unknown hosts, shards out of range / not fitting u16, refused payloads, refresh_metadata in "
              "between) also for tables of keyspaces that are not tablet based; quick 100 / thorough 240 requests per cluster. "
-             "Before every request the runner waits until the pools are full and stable (connection counts on the mock = the "
-             "configured pool size, Node::is_connected agrees) and records the server-side shards of every node's connections; "
+             "The pools are ESTABLISHED, not assumed: after the connection counts on the mock equal the configured pool size and "
+             "Node::is_connected agrees, every live connection must have served a probe request aimed at its node and shard "
+             "(so the driver has certainly published it); before and after every request the set of live connections must be "
+             "that established set, else the request is not judged; "
              "the observation is the (node, server-side shard) at which the first EXECUTE frame of the request arrived. "
-             "non-trivial = a first frame was seen; distinct = distinct case lines; requests of scenarios that could not be "
-             "set up are counted as skipped and fail the check above max(5, 3%)"),
-    "nontrivial": lambda ln: (":" in (_impl(ln) or ["-"])[0]) and not _skipped(ln),
+             "P lines = the pool tie: while establishing the pools every (node, shard), shard = nr_shards and shard 70000 is "
+             "probed through a pinning policy and the server-side shard of the serving connection is recorded. "
+             "non-trivial = a first frame was seen / a probe; distinct = distinct case lines; requests not run for environmental "
+             "reasons (scenario could not be set up after one retry, pools not established, connections changed under the request, "
+             "harness timeout after one retry) are counted and bounded: max(5, 2%) overall and per configuration class; "
+             "per-kind coverage floors are enforced on full-size runs"),
+    "nontrivial": lambda ln: (ln.startswith("P ") or ":" in (_impl(ln) or ["-"])[0]) and not _skipped(ln),
     "extra_coverage": _cov,
     "post": _post,
     "trusted_base": [
         "vh::mocknode (scripted CQL v4 mock cluster, own codec): the server-side shard of every connection "
         "(source_port % nr_shards on the shard-aware port, round-robin on the plain port), the trace of received frames, "
         "the synthesised system tables, the tablets-routing-v1 payload encoder",
-        "the runner's snapshot of the pools (the mock's live non-control connections per node, taken when their number equals "
-        "the configured pool size and Node::is_connected agrees) stands for the driver's private pool contents",
+        "the pool contents handed to the acceptor are the mock's live non-control connections, each of which has served a probe "
+        "aimed at its (node, shard) through a pinning LoadBalancingPolicy and none of which appeared or vanished around the request",
         "spec_replicas (C04), spec_shard_of (C11), spec_token (C03) and the tablet history semantics (C15) are the "
         "specifications of the composed slices; route_prop is the property text transcribed over them",
     ],
